@@ -38,6 +38,9 @@ CHECKS = {
  "C12": dict(cat="exploration", technique="byte comparison of generator output across fresh processes with varied PYTHONHASHSEED and process histories",
    text="Recipes covering all integral types, mixed elements, several forms per module and expressions, for the C and numba backends, are generated in fresh processes under hash seeds {0,1,2,3,random} and histories {none, unrelated objects first, other forms compiled first, compiled twice, built early}; all outputs must be byte-identical to the baseline; a difference is classified by mechanism from the line diff.",
    note="Three genuine defects found and fixed in /repo (comment set order, mesh-id in Jacobian names, FE numbering from a set).", ref="3/C12"),
+ "C13": dict(cat="exploration", technique="names observed through jit.compile_* (aborted before the compiler) in fresh processes: stability under hash seed/history/creation order; near-miss request pairs with kernel-text digests; name monitor",
+   text="Module and object names of requests (forms, several forms, expressions) are computed by the real JIT entry points in fresh processes under varied hash seeds and histories and must be identical; near-miss request pairs (one literal/index/coefficient/degree/power, evaluation points at 1e-10/1e-6/dtype/order/count/inside a >1000-element array, scalar type, each option, compiler flags, form order) must get different module names whenever their generated kernels or options differ; object names must be distinct valid identifiers.",
+   note="Two genuine defects found and fixed (repr(points) truncation; duplicate expression names). Separation can only be observed for generated pairs.", ref="3/C13"),
 }
 NA_REASON = "check not built yet in this round (runtime monitoring applies; see DESIGN.md section 3)"
 
